@@ -51,6 +51,38 @@ def keyed_access(R, rep):
             rep.ob("R1", f"{b.short}:{m}", ok, f"per-security map keyed by a transaction's ticker{via}" if ok else
                    f"per-security map is accessed with key {show(key)[:60]} — not the ticker of the transaction being processed",
                    b.loc(t["sp"]), key=f"R1:{b.short}:{m}:key")
+    # the matcher's OTHER maps (same-day reservations, 30-day claims, …) are shared by all securities: their key type must tell
+    # the securities apart — it contains the ticker (a String component) or it is the line's position in the whole list (usize).
+    # A map keyed by the date alone lets one security's entry answer for another's (seeded change C09-s5)
+    import re as _re
+    seen_types = {}
+    for b in R.bodies:
+        for i, t in b.calls():
+            st, tr, m = parse_callee(t["callee"])
+            if m not in MAP_METHODS or not ("HashMap" in t["callee"] or "BTreeMap" in t["callee"]):
+                continue
+            mty = (t.get("aty") or [""])[0]
+            mm = _re.search(r"(?:HashMap|BTreeMap)<(.*)$", mty)
+            if not mm or "rust_decimal::decimal::Decimal" not in mty:
+                continue
+            inner = mm.group(1)
+            depth, k = 0, None
+            for j, ch in enumerate(inner):
+                if ch in "<(":
+                    depth += 1
+                elif ch in ">)":
+                    depth -= 1
+                elif ch == "," and depth == 0:
+                    k = inner[:j].strip()
+                    break
+            if k is None:
+                continue
+            seen_types.setdefault(k, (b, t))
+    for k, (b, t) in sorted(seen_types.items()):
+        ok = "String" in k or "str" in k or k == "usize"
+        rep.ob("R1", f"shared-map-key:{k[:40]}", ok, f"a quantity map of the matcher is keyed by `{k}`, which identifies the security" if ok else
+               f"a quantity map of the matcher is keyed by `{k}` only: every security that has an entry under the same key shares it",
+               b.loc(t["sp"]), key=f"R1:shared-map-key:{k[:60]}")
     rep.count("per_ticker_map_accesses", n)
     if n < 6:
         rep.unresolved("R1", "map-accesses", f"only {n} keyed accesses to per-security maps found in the matcher")
